@@ -296,6 +296,7 @@ impl StandardPathView {
             curr_hop_copy.set_flags(flags);
         }
 
+        let mut segment_change = false;
         let res = match (is_final_hop, end_of_segment) {
             // FINAL_HOP: process at local destination
             (true, true) => {
@@ -352,9 +353,8 @@ impl StandardPathView {
                         .err()
                 });
 
-                // Advance the hop field index by one
-                self.set_curr_hop_field((curr_hop_idx + 1) as u8);
-                self.set_curr_info_field((seg_idx + 1) as u8);
+                // Advance to the next segment once validation has passed
+                segment_change = true;
 
                 // NOTE: We are ignoring SCMP alerts which are set on the segment change
                 // hop fields.
@@ -372,6 +372,11 @@ impl StandardPathView {
             }
         };
 
+        // A path which failed validation is left exactly as it was
+        if let Some(err) = validation_err {
+            return Ok(IngressValidateResult::ValidationFailed(res, err));
+        }
+
         // Commit the updated fields
         *self
             .info_field_mut(curr_info_idx)
@@ -381,11 +386,13 @@ impl StandardPathView {
             .hop_field_mut(curr_hop_idx)
             .expect("If we can get the current hop field without mut, we can get it with mut") =
             curr_hop_copy;
-
-        match validation_err {
-            Some(err) => Ok(IngressValidateResult::ValidationFailed(res, err)),
-            None => Ok(IngressValidateResult::Ok(res)),
+        if segment_change {
+            // Advance the hop field index by one
+            self.set_curr_hop_field((curr_hop_idx + 1) as u8);
+            self.set_curr_info_field((seg_idx + 1) as u8);
         }
+
+        Ok(IngressValidateResult::Ok(res))
     }
 }
 
@@ -540,6 +547,16 @@ impl StandardPathView {
             curr_hop_copy.set_flags(flags);
         }
 
+        let out = EgressAdvanceOutput {
+            scmp_alert,
+            egress_interface: curr_hop_copy.egress_interface(&curr_info_copy),
+        };
+
+        // A path which failed validation is left exactly as it was
+        if let Some(err) = validation_error {
+            return Ok(EgressValidateResult::ValidationFailed(out, err));
+        }
+
         // Commit
         *self
             .info_field_mut(curr_info_idx)
@@ -551,15 +568,7 @@ impl StandardPathView {
             curr_hop_copy;
         self.set_curr_hop_field((curr_hop_idx + 1) as u8);
 
-        let out = EgressAdvanceOutput {
-            scmp_alert,
-            egress_interface: curr_hop_copy.egress_interface(&curr_info_copy),
-        };
-
-        match validation_error {
-            Some(err) => Ok(EgressValidateResult::ValidationFailed(out, err)),
-            None => Ok(EgressValidateResult::Ok(out)),
-        }
+        Ok(EgressValidateResult::Ok(out))
     }
 }
 
